@@ -267,7 +267,8 @@ class _Reqs:
                 if callee_name(t["fn"].get("path", "")) == "duration_since":
                     a = ev.call_args(bb)
                     zero = all(s[1] == 0 for s in values.subterms(a[1]) if isinstance(s, tuple) and s and s[0] == "int")
-                    if a[0] != ("param", fn.path, 2) or not zero or "SystemTime" not in str(a[1]):
+                    recv_is_time_param = isinstance(a[0], tuple) and a[0] and a[0][0] == "param" and a[0][1] == fn.path and "SystemTime" in fn.locals[a[0][2]]["ty"]
+                    if not recv_is_time_param or not zero or "SystemTime" not in str(a[1]):
                         return False, "%s computes duration_since(%s)" % (name, values.fmt(a[1]))
                     n += 1
         return n == 2, "both midpoints are now.duration_since(UNIX_EPOCH)"
